@@ -75,7 +75,9 @@ TractApply(s, op) ==
 \* what a committed PLSSDesc parse leaves behind
 \* tq: how the tracts were last parsed: "unparsed", "own" (with their own settings: at creation when
 \* parse_qq is in force, or by parse_tracts() without keyword), or the clean_qq keyword of parse_tracts
-PlssParsed(a, k) == [A |-> a, res |-> [a |-> a, k |-> k], pp |-> PEff(a, k).ns,
+\* pp: what the committed preprocessed text was made with (default N/S; whether the OCR scrubber ran - a committed
+\* preprocess() without that keyword re-reads the text without it)
+PlssParsed(a, k) == [A |-> a, res |-> [a |-> a, k |-> k], pp |-> [ns |-> PEff(a, k).ns, ocr |-> k.ocr],
                      tq |-> IF PEff(a, k).pq = "T" THEN "own" ELSE "unparsed", ord |-> "orig", drop |-> "F"]
 PlssNew(a) == PlssParsed(a, PNone)                  \* __init__ parses with the attributes alone
 PlssApply(s, op) ==
@@ -84,7 +86,7 @@ PlssApply(s, op) ==
          ELSE IF Fault = "commit_keeps_order" THEN [PlssParsed(s.A, op.kw) EXCEPT !.ord = s.ord]
          ELSE PlssParsed(s.A, op.kw)
     [] op.name = "parse_tracts" -> [s EXCEPT !.tq = IF op.kw.clean = NA THEN "own" ELSE op.kw.clean]
-    [] op.name = "preprocess" -> IF ~op.commit THEN s ELSE [s EXCEPT !.pp = Ov(s.A.ns, op.kw.ns)]
+    [] op.name = "preprocess" -> IF ~op.commit THEN s ELSE [s EXCEPT !.pp = [ns |-> Ov(s.A.ns, op.kw.ns), ocr |-> NA]]
     [] op.name = "config" -> [s EXCEPT !.A = op.cfg]
     [] op.name = "sort" -> [s EXCEPT !.ord = "sorted"]
     [] op.name = "filter" -> IF op.commit THEN [s EXCEPT !.drop = "T"] ELSE s
